@@ -34,6 +34,12 @@ def gen(rng, k):
         w_ = float(rng.choice([1.0, 0.5, 0.1, 0.05, -0.3]))
         e_ = float(rng.choice([0.0, 0.0, 0.01])) if abs(w_) > 0.04 else 0.0
         L = np.array([[1 + e_, w_], [-w_ * float(rng.choice([1.0, 0.6])), 1 - e_]])
+    if (k // 3) % 5 == 2:
+        # a linear part with a diagonal entry EXACTLY 1 and no eigenvalue 1 (both off-diagonal entries non-zero): shear-like maps
+        # such as [[2, .5], [.5, 1]], [[1, .3], [-.2, 1]]
+        o1, o2 = float(rng.choice([0.5, -0.2, 0.3, 1.0, -1.0])), float(rng.choice([0.5, 0.3, -0.4, 1.0]))
+        d_ = float(rng.choice([2.0, 0.5, 1.0, 1.5]))
+        L = np.array([[d_, o1], [o2, 1.0]]) if k % 2 else np.array([[1.0, o1], [o2, d_]])
     t = rng.uniform(-30, 30, 2)
     p = {"ref": ref, "L": L, "t": t, "noise": [0.0, 0.5][k % 2],
          "center": None if k % 3 == 0 else rng.uniform(-40, 40, 2),
